@@ -111,7 +111,8 @@ def verify_one(task: Tuple[str, str, Optional[List[int]]]) -> Dict[str, Any]:
         out['props'] = list(ct.props)
         if ct.assumed:
             return out
-        v.cross_check = True
+        v.cross_check = ct.extra.get('cross_check', True)
+        out['cross_enabled'] = bool(v.cross_check)
         v.cross = []
         r = v.verify_function(fi, ct)
         out['paths'] = len(r.paths)
